@@ -514,7 +514,9 @@ class ConfigGen:
         r = {"k": kind, "ch": ch, "id": self.fresh(force_id)}
         if kind in ("CcAny", "CcXor"):
             q = rng.random()
-            if q < 0.65:
+            if q < 0.12 and len(ch) >= 3:
+                r["default"] = [c["id"] for c in rng.sample(ch, 2)]          # a default LIST: only the first entry counts
+            elif q < 0.65:
                 d = rng.choice(ch)["id"]
                 r["default"] = [d if rng.random() < 0.7 else {"id": d, "b": [0, 1]}]
             elif q < 0.75:
